@@ -436,7 +436,7 @@ def shard(ctx: Ctx) -> None:
 
     _device.AUTO_ROTATE = True   # chunking of the device's stream rotates: as written / replies coalesced / cut into 1..8-byte pieces
     rng = ctx.rng.__class__(f"C16/{ctx.seed}")
-    n = 90000 if ctx.thorough else 10000
+    n = 300000 if ctx.thorough else 10000
     for i in range(n):
         case = gen_case(rng)
         if ctx.mine(i):
